@@ -34,8 +34,8 @@ mod verif_conv {
             fn $name() {
                 let v: $t = kani::any();
                 match <$t as $tr>::try_to_value(v) {
-                    Ok(MetricValue::$variant(x)) => assert!(x == v as $wide, "[C02] integer reaches the formatter with exactly the supplied value"),
-                    _ => assert!(false, "[C02] a scalar integer is never rejected and keeps its signedness class"),
+                    Ok(MetricValue::$variant(x)) => assert!(x == v as $wide, "[C01,C02] integer reaches the formatter with exactly the supplied value"),
+                    _ => assert!(false, "[C01,C02] a scalar integer is never rejected and keeps its signedness class"),
                 }
                 kani::cover!(true, "end");
             }
@@ -47,7 +47,7 @@ mod verif_conv {
             fn $name() {
                 let v: f64 = kani::any();
                 match <f64 as $tr>::try_to_value(v) {
-                    Ok(MetricValue::Float(x)) => assert!(x.to_bits() == v.to_bits(), "[C02] float reaches the formatter bit-identical"),
+                    Ok(MetricValue::Float(x)) => assert!(x.to_bits() == v.to_bits(), "[C01,C02] float reaches the formatter bit-identical"),
                     _ => assert!(false, "[C02] a float is never rejected"),
                 }
                 kani::cover!(true, "end");
@@ -78,31 +78,31 @@ mod verif_conv {
         };
     }
 
-    //@H name=c02_counter_i64 props=C02,C20 fn=ToCounterValue<i64> :: i64 counter value is passed on exactly (whole range)
+    //@H name=c02_counter_i64 props=C01,C02,C20 fn=ToCounterValue<i64> :: i64 counter value is passed on exactly (whole range)
     scalar!(c02_counter_i64, ToCounterValue, i64, Signed, i64);
-    //@H name=c02_counter_i32 props=C02,C20 fn=ToCounterValue<i32> :: i32 counter value is sign-extended exactly (whole range)
+    //@H name=c02_counter_i32 props=C01,C02,C20 fn=ToCounterValue<i32> :: i32 counter value is sign-extended exactly (whole range)
     scalar!(c02_counter_i32, ToCounterValue, i32, Signed, i64);
-    //@H name=c02_counter_u64 props=C02,C20 fn=ToCounterValue<u64> :: u64 counter value is passed on exactly (whole range)
+    //@H name=c02_counter_u64 props=C01,C02,C20 fn=ToCounterValue<u64> :: u64 counter value is passed on exactly (whole range)
     scalar!(c02_counter_u64, ToCounterValue, u64, Unsigned, u64);
-    //@H name=c02_counter_u32 props=C02,C20 fn=ToCounterValue<u32> :: u32 counter value is zero-extended exactly (whole range)
+    //@H name=c02_counter_u32 props=C01,C02,C20 fn=ToCounterValue<u32> :: u32 counter value is zero-extended exactly (whole range)
     scalar!(c02_counter_u32, ToCounterValue, u32, Unsigned, u64);
-    //@H name=c02_timer_u64 props=C02,C20 fn=ToTimerValue<u64> :: u64 timer value is passed on exactly
+    //@H name=c02_timer_u64 props=C01,C02,C20 fn=ToTimerValue<u64> :: u64 timer value is passed on exactly
     scalar!(c02_timer_u64, ToTimerValue, u64, Unsigned, u64);
-    //@H name=c02_gauge_u64 props=C02,C20 fn=ToGaugeValue<u64> :: u64 gauge value is passed on exactly
+    //@H name=c02_gauge_u64 props=C01,C02,C20 fn=ToGaugeValue<u64> :: u64 gauge value is passed on exactly
     scalar!(c02_gauge_u64, ToGaugeValue, u64, Unsigned, u64);
-    //@H name=c02_meter_u64 props=C02,C20 fn=ToMeterValue<u64> :: u64 meter value is passed on exactly
+    //@H name=c02_meter_u64 props=C01,C02,C20 fn=ToMeterValue<u64> :: u64 meter value is passed on exactly
     scalar!(c02_meter_u64, ToMeterValue, u64, Unsigned, u64);
-    //@H name=c02_hist_u64 props=C02,C20 fn=ToHistogramValue<u64> :: u64 histogram value is passed on exactly
+    //@H name=c02_hist_u64 props=C01,C02,C20 fn=ToHistogramValue<u64> :: u64 histogram value is passed on exactly
     scalar!(c02_hist_u64, ToHistogramValue, u64, Unsigned, u64);
-    //@H name=c02_dist_u64 props=C02,C20 fn=ToDistributionValue<u64> :: u64 distribution value is passed on exactly
+    //@H name=c02_dist_u64 props=C01,C02,C20 fn=ToDistributionValue<u64> :: u64 distribution value is passed on exactly
     scalar!(c02_dist_u64, ToDistributionValue, u64, Unsigned, u64);
-    //@H name=c02_set_i64 props=C02,C20 fn=ToSetValue<i64> :: i64 set value is passed on exactly
+    //@H name=c02_set_i64 props=C01,C02,C20 fn=ToSetValue<i64> :: i64 set value is passed on exactly
     scalar!(c02_set_i64, ToSetValue, i64, Signed, i64);
-    //@H name=c02_gauge_f64 props=C02,C20 fn=ToGaugeValue<f64> :: f64 gauge value is passed on bit-identically (all bit patterns incl. NaN, -0.0, subnormals)
+    //@H name=c02_gauge_f64 props=C01,C02,C20 fn=ToGaugeValue<f64> :: f64 gauge value is passed on bit-identically (all bit patterns incl. NaN, -0.0, subnormals)
     float!(c02_gauge_f64, ToGaugeValue);
-    //@H name=c02_hist_f64 props=C02,C20 fn=ToHistogramValue<f64> :: f64 histogram value is passed on bit-identically
+    //@H name=c02_hist_f64 props=C01,C02,C20 fn=ToHistogramValue<f64> :: f64 histogram value is passed on bit-identically
     float!(c02_hist_f64, ToHistogramValue);
-    //@H name=c02_dist_f64 props=C02,C20 fn=ToDistributionValue<f64> :: f64 distribution value is passed on bit-identically
+    //@H name=c02_dist_f64 props=C01,C02,C20 fn=ToDistributionValue<f64> :: f64 distribution value is passed on bit-identically
     float!(c02_dist_f64, ToDistributionValue);
     //@H name=c02_timer_vec_u64 props=C01,C02,C20 fn=ToTimerValue<Vec<u64>> :: packed u64 timers: same buffer (any length/capacity), empty rejected
     packed!(c02_timer_vec_u64, ToTimerValue, u64, PackedUnsigned);
@@ -122,7 +122,7 @@ mod verif_conv {
         (Duration::new(secs, nanos), secs, nanos)
     }
 
-    //@H name=c02_timer_duration props=C02,C20 fn=ToTimerValue<Duration> family=conv inputs=secs:u64,nanos:u32 :: Duration -> whole milliseconds (rounded down); Err(InvalidInput) exactly when the count exceeds u64 (all secs, all nanos)
+    //@H name=c02_timer_duration props=C01,C02,C20 fn=ToTimerValue<Duration> family=conv inputs=secs:u64,nanos:u32 :: Duration -> whole milliseconds (rounded down); Err(InvalidInput) exactly when the count exceeds u64 (all secs, all nanos)
     #[kani::proof]
     #[kani::solver(kissat)]
     fn c02_timer_duration() {
@@ -142,7 +142,7 @@ mod verif_conv {
         kani::cover!(true, "end");
     }
 
-    //@H name=c02_hist_duration props=C02,C20 fn=ToHistogramValue<Duration> family=conv inputs=secs:u64,nanos:u32 :: Duration -> whole nanoseconds; Err(InvalidInput) exactly when the count exceeds u64 (all secs, all nanos)
+    //@H name=c02_hist_duration props=C01,C02,C20 fn=ToHistogramValue<Duration> family=conv inputs=secs:u64,nanos:u32 :: Duration -> whole nanoseconds; Err(InvalidInput) exactly when the count exceeds u64 (all secs, all nanos)
     #[kani::proof]
     #[kani::solver(kissat)]
     fn c02_hist_duration() {
@@ -203,17 +203,17 @@ mod verif_conv {
             }
         };
     }
-    //@H name=c02_timer_vec_duration_1 props=C02,C20 bound="list length 1 (unwind 6)" fn=ToTimerValue<Vec<Duration>> :: packed Durations -> ms element-wise; overflow at any index rejects the list
+    //@H name=c02_timer_vec_duration_1 props=C01,C02,C20 bound="list length 1 (unwind 6)" fn=ToTimerValue<Vec<Duration>> :: packed Durations -> ms element-wise; overflow at any index rejects the list
     vec_duration!(c02_timer_vec_duration_1, ToTimerValue, exact_ms, 1);
-    //@H name=c02_timer_vec_duration_2 props=C02,C20 bound="list length 2 (unwind 6)" fn=ToTimerValue<Vec<Duration>> :: packed Durations -> ms element-wise; overflow at any index rejects the list
+    //@H name=c02_timer_vec_duration_2 props=C01,C02,C20 bound="list length 2 (unwind 6)" fn=ToTimerValue<Vec<Duration>> :: packed Durations -> ms element-wise; overflow at any index rejects the list
     vec_duration!(c02_timer_vec_duration_2, ToTimerValue, exact_ms, 2);
-    //@H name=c02_timer_vec_duration_3 props=C02,C20 tier=thorough bound="list length 3 (unwind 6)" fn=ToTimerValue<Vec<Duration>> :: packed Durations -> ms element-wise; overflow at any index rejects the list
+    //@H name=c02_timer_vec_duration_3 props=C01,C02,C20 tier=thorough bound="list length 3 (unwind 6)" fn=ToTimerValue<Vec<Duration>> :: packed Durations -> ms element-wise; overflow at any index rejects the list
     vec_duration!(c02_timer_vec_duration_3, ToTimerValue, exact_ms, 3);
-    //@H name=c02_hist_vec_duration_1 props=C02,C20 bound="list length 1 (unwind 6)" fn=ToHistogramValue<Vec<Duration>> :: packed Durations -> ns element-wise; overflow at any index rejects the list
+    //@H name=c02_hist_vec_duration_1 props=C01,C02,C20 bound="list length 1 (unwind 6)" fn=ToHistogramValue<Vec<Duration>> :: packed Durations -> ns element-wise; overflow at any index rejects the list
     vec_duration!(c02_hist_vec_duration_1, ToHistogramValue, exact_ns, 1);
-    //@H name=c02_hist_vec_duration_2 props=C02,C20 tier=thorough bound="list length 2 (unwind 6)" fn=ToHistogramValue<Vec<Duration>> :: packed Durations -> ns element-wise; overflow at any index rejects the list
+    //@H name=c02_hist_vec_duration_2 props=C01,C02,C20 tier=thorough bound="list length 2 (unwind 6)" fn=ToHistogramValue<Vec<Duration>> :: packed Durations -> ns element-wise; overflow at any index rejects the list
     vec_duration!(c02_hist_vec_duration_2, ToHistogramValue, exact_ns, 2);
-    //@H name=c02_hist_vec_duration_3 props=C02,C20 tier=thorough bound="list length 3 (unwind 6)" fn=ToHistogramValue<Vec<Duration>> :: packed Durations -> ns element-wise; overflow at any index rejects the list
+    //@H name=c02_hist_vec_duration_3 props=C01,C02,C20 tier=thorough bound="list length 3 (unwind 6)" fn=ToHistogramValue<Vec<Duration>> :: packed Durations -> ns element-wise; overflow at any index rejects the list
     vec_duration!(c02_hist_vec_duration_3, ToHistogramValue, exact_ns, 3);
 
     //@H name=c02_vec_duration_empty props=C01,C02,C20 fn=To{Timer,Histogram}Value<Vec<Duration>> :: an empty packed Duration list is rejected as invalid input (both kinds)
